@@ -148,7 +148,7 @@ def rank_of(r, s, t):
         return (None if rk is None else rk + 1), why
     if head(t) == "fold":
         # list accumulator: rank of the appended element
-        step = strip(t[4])
+        step = strip(t[5])
         elems = [x for x in walk(step) if head(x) == "mut" and x[1] == "append" and len(x[3]) == 1]
         if not elems:
             return None, "accumulator outside the idiom list"
